@@ -52,4 +52,23 @@ mutual
     | .cons c rest => c.timed ∧ rest.timed
 end
 
+mutual
+  /-- what the exit hook needs of a call's two clock readings: the call passes the (absent) time
+      filter and the clock did not read 0 at its end (0 marks a still open call) -/
+  def Call.okFor (cfg : Cfg) : Call → Prop
+    | .node _ t0 t1 kids => (durOk cfg (t1 - t0) 0 = true ∧ t1 ≠ 0) ∧ kids.okFor cfg
+  def Calls.okFor (cfg : Cfg) : Calls → Prop
+    | .nil => True
+    | .cons c rest => c.okFor cfg ∧ rest.okFor cfg
+end
+
+mutual
+  /-- no hook of the history reads 0 on the clock at an exit -/
+  def Call.ended : Call → Prop
+    | .node _ _ t1 kids => t1 ≠ 0 ∧ kids.ended
+  def Calls.ended : Calls → Prop
+    | .nil => True
+    | .cons c rest => c.ended ∧ rest.ended
+end
+
 end Uft.Mcount
